@@ -6,8 +6,10 @@ Open Scope nat_scope.
 Definition pnil (s : state) : bool :=
   match ps s with PReturning RNil | PDeferClose RNil | PReturned RNil => true | _ => false end.
 
-(* s.ctx.Err() == Canceled as the first Error() call evaluated it *)
-Definition filter_ctx (c : cfg) (s : state) : bool := canc_at_err s || (d9_wrong c && fix_d9 c).
+(* the first case of the filter as the first Error() call evaluated it:
+   s.ctx.Err() == Canceled [&& !s.endedUncancelled after the K2 repair] *)
+Definition filter_ctx (c : cfg) (s : state) : bool :=
+  (canc_at_err s || (d9_wrong c && fix_d9 c)) && negb (fix_k2 c && ended_uncancelled s).
 
 Definition Inv2 (c : cfg) (s : state) : Prop :=
   (rreason s = Some RCancel -> cancelled s = true \/ dcancelled s = true) /\
@@ -26,7 +28,7 @@ Proof. unfold Inv2; cbn; intuition (try congruence; try discriminate). Qed.
 Lemma Inv2_step c s l s' : Inv1 c s -> Inv2 c s -> step c s l = Some s' -> Inv2 c s'.
 Proof.
   intros (HR & HP & HM) H2 H.
-  destruct s; unfold rd_inv, ps_inv, misc_inv, Inv2, pnil, stream_returned, filter_ctx, ectx_err in *;
+  destruct s; unfold rd_inv, ps_inv, misc_inv, Inv2, pnil, stream_returned, filter_ctx, efirst_case, ectx_err in *;
     cbn in HR, HP, HM, H2.
   destruct H2 as (A1 & A2 & A3 & A4 & A5 & A6 & A7 & A8).
   destruct l; cbn in H; break_step H; inversion H; subst; clear H; cbn in *;
